@@ -354,8 +354,11 @@ def _call(args):
                    seconds=time.time()-t0, note=f"{e!r}\n{tb[-1500:]}")]
 
 
-def pmap(fn, cases, procs=None):
-    """Run fn(case)->list[Ob] over cases in forked workers; flat list."""
+def pmap(fn, cases, procs=None, fresh=False):
+    """Run fn(case)->list[Ob] over cases in forked workers; flat list.
+    fresh=True: one worker process per case (solver state - z3's global
+    term table, fresh-name counters - left by earlier cases changes the
+    run time of nonlinear queries by an order of magnitude)."""
     cases = list(cases)
     procs = procs or ncpu()
     if procs <= 1 or len(cases) <= 1:
@@ -364,7 +367,7 @@ def pmap(fn, cases, procs=None):
             out.extend(_call((fn, c)))
         return out
     ctx = mp.get_context('fork')
-    with ctx.Pool(min(procs, len(cases)), maxtasksperchild=8) as pool:
+    with ctx.Pool(min(procs, len(cases)), maxtasksperchild=1 if fresh else 8) as pool:
         out = []
         for r in pool.imap_unordered(_call, [(fn, c) for c in cases],
                                      chunksize=1):
